@@ -19,6 +19,7 @@ func genCase(t *rapid.T) Case {
 	if c.NMW > 0 && rapid.IntRange(0, 3).Draw(t, "failing?") == 0 {
 		c.FailAt = rapid.IntRange(0, c.NMW-1).Draw(t, "fail-at")
 		c.FailErr = gen.SmallErr().Draw(t, "fail-err")
+		c.FailNilCtx = rapid.Bool().Draw(t, "fail-returns-nil-context")
 	}
 	c.Auth = rapid.SampledFrom([]string{"none", "none", "accept", "accept", "reject"}).Draw(t, "auth")
 	c.Term = rapid.SampledFrom([]string{"none", "ok", "ok", "fail"}).Draw(t, "term")
